@@ -293,3 +293,31 @@ pub fn ts_sane(ts: jiff::Timestamp) -> Result<(), String> {
     }
     Ok(())
 }
+
+/// A `std::io::Write` sink that accepts at most `chunk` bytes per call (what
+/// pipes and sockets are allowed to do): text printed through
+/// `jiff::fmt::StdIoWrite` must still arrive complete.
+pub struct Trickle {
+    pub buf: Vec<u8>,
+    pub chunk: usize,
+}
+
+impl Trickle {
+    pub fn new(chunk: usize) -> Trickle {
+        Trickle { buf: vec![], chunk: chunk.max(1) }
+    }
+    pub fn text(&self) -> String {
+        String::from_utf8_lossy(&self.buf).to_string()
+    }
+}
+
+impl std::io::Write for Trickle {
+    fn write(&mut self, b: &[u8]) -> std::io::Result<usize> {
+        let n = b.len().min(self.chunk);
+        self.buf.extend_from_slice(&b[..n]);
+        Ok(n)
+    }
+    fn flush(&mut self) -> std::io::Result<()> {
+        Ok(())
+    }
+}
